@@ -830,41 +830,54 @@ class Spec(object):
         out = []
         scope = {"__closure__": env}
         symbolic = [False]
+        entries = []  # (element value, condition term) when every iterable is concrete
+        opaque_iter = [False]
 
-        def rec(i):
+        def rec(i, conds):
             if i == len(e.generators):
                 if isinstance(e, ast.DictComp):
-                    out.append((self.ev(e.key, scope, g), self.ev(e.value, scope, g)))
+                    v = (self.ev(e.key, scope, g), self.ev(e.value, scope, g))
                 else:
-                    out.append(self.ev(e.elt, scope, g))
+                    v = self.ev(e.elt, scope, g)
+                if is_sym(v) or (isinstance(v, tuple) and any(is_sym(x) for x in v)):
+                    pass
+                out.append(v)
+                c = True if not conds else (conds[0] if len(conds) == 1 else Op("and*", *conds))
+                entries.append((v, c))
                 return
             gen = e.generators[i]
             it = self.ev(gen.iter, scope, g)
-            if is_sym(it) or not hasattr(it, "__iter__") or isinstance(it, (str, bytes)) and False:
+            if is_sym(it) or not hasattr(it, "__iter__"):
                 symbolic[0] = True
+                opaque_iter[0] = True
                 self.assign(gen.target, self.fresh("elem"), scope, g)
                 for c in gen.ifs:
                     self.ev(c, scope, g)
-                rec(i + 1)
+                rec(i + 1, conds)
                 return
             for x in list(it):
                 self.assign(gen.target, x, scope, g)
                 ok = True
+                cs = list(conds)
                 for c in gen.ifs:
                     cv = self.ev(c, scope, g)
                     if is_sym(cv):
                         symbolic[0] = True
+                        cs.append(cv)
                     elif not self.truthy(cv):
                         ok = False
                         break
                 if ok:
-                    rec(i + 1)
+                    rec(i + 1, cs)
 
         try:
-            rec(0)
+            rec(0, [])
         except TypeError:
             return Top("comp")
+        cond_entries = None if opaque_iter[0] else entries
         if symbolic[0]:
+            if cond_entries is not None and not isinstance(e, ast.DictComp):
+                return Op("complist", *cond_entries)
             return Op("comp:" + type(e).__name__, ast.unparse(e)[:80], *[x for x in out[:4]])
         if isinstance(e, ast.SetComp):
             return set(out)
@@ -1736,6 +1749,8 @@ def eval_term(t, valuation):
         return tuple(eval_term(x, valuation) for x in t)
     if isinstance(t, list):
         return [eval_term(x, valuation) for x in t]
+    if isinstance(t, Op) and t.op == "complist":
+        return [eval_term(v, valuation) for (v, c) in t.args if eval_term(c, valuation)]
     if isinstance(t, Op):
         a = [eval_term(x, valuation) for x in t.args]
         o = t.op
@@ -1781,8 +1796,8 @@ def eval_term(t, valuation):
             return ~a[0]
         if o == "Pow":
             return a[0] ** a[1]
-        if o == "call" and a and a[0] in ("abs", "min", "max", "int", "bool") :
-            return {"abs": abs, "min": min, "max": max, "int": int, "bool": bool}[a[0]](*a[1:])
+        if o == "call" and a and a[0] in ("abs", "min", "max", "int", "bool", "sum", "len", "any", "all"):
+            return {"abs": abs, "min": min, "max": max, "int": int, "bool": bool, "sum": sum, "len": len, "any": any, "all": all}[a[0]](*a[1:])
         raise ValueError("cannot evaluate %s" % o)
     if isinstance(t, Top):
         raise ValueError("TOP")
